@@ -835,7 +835,10 @@ func (c *Client) logs(ctx context.Context, url string, filter *glf.Filter, bm bl
 	}
 	if b, ok := bm[toBlock]; ok {
 		// the header that came with the logs must be the block we hold
-		if err := setHash(b, hresp.Hash); err != nil {
+		b.Lock()
+		err := setHash(b, hresp.Hash)
+		b.Unlock()
+		if err != nil {
 			return fmt.Errorf("eth_getLogs/eth_getBlockByNumber: %w", err)
 		}
 	}
